@@ -76,9 +76,15 @@ class SeismicFileConverter(object):
         if seismic.structured and not self.is_2d:
             n_traces = len(self.geom.ilines) * len(self.geom.xlines)
         if header_detection == 'heuristic':
-            return HeaderwordInfo(n_traces=n_traces,
-                                  seismicfile=seismic,
-                                  header_detection=header_detection)
+            header_info = HeaderwordInfo(n_traces=n_traces,
+                                         seismicfile=seismic,
+                                         header_detection=header_detection)
+            if seismic.filetype == Filetype.ZGY:
+                # Header arrays of a ZGY file are generated for the whole file: keep those of the converted window
+                il, xl = self.geom.ilines, self.geom.xlines
+                for hw, array in header_info.headers_dict.items():
+                    header_info.headers_dict[hw] = np.ascontiguousarray(array[il[0]:il[-1] + 1, xl[0]:xl[-1] + 1])
+            return header_info
         elif header_detection in ['thorough', 'exhaustive']:
             return HeaderwordInfo(n_traces=n_traces,
                                   variant_header_list=segyio.TraceField.enums()[0:89],
